@@ -44,3 +44,30 @@ func TestC16Stall(t *testing.T) {
 	concT = t
 	RunProp(t, "C16", "stall-fake-clock", genHSStall, checkC16Stall)
 }
+
+// TestC10Owned: C10's fail-stop clause under concurrency - the owned schedule
+// additionally makes one pending transport write fail while other callers are
+// queued on the write lock.
+func TestC10Owned(t *testing.T) {
+	concT = t
+	RunProp(t, "C10", "owned-schedule-fault", func(rt *rapid.T) ConcCase {
+		c := genConcCase(rt, false)
+		if len(c.Ctl) == 0 {
+			c.Ctl = append(c.Ctl, CtlActor{MT: 9, Len: 10})
+		}
+		// turn one grant into a failure (or append one)
+		pos := rapid.IntRange(0, len(c.Sched)).Draw(rt, "fail_pos")
+		placed := false
+		for i := pos; i < len(c.Sched); i++ {
+			if c.Sched[i].Kind == "grant" {
+				c.Sched[i].Kind = "fail"
+				placed = true
+				break
+			}
+		}
+		if !placed {
+			c.Sched = append(c.Sched, SAct{Kind: "start", Arg: 0}, SAct{Kind: "start", Arg: 2}, SAct{Kind: "fail"})
+		}
+		return c
+	}, checkC11)
+}
